@@ -115,6 +115,8 @@ pub struct BrokerCfg {
     pub raw_eof_with_last_segment: bool,
     /// the server reads Connection.Open and then never sends anything again (no OpenOk)
     pub silent_instead_of_open_ok: bool,
+    /// the bytes glued to OpenOk are a Connection.Close: from then on the broker behaves as a closing server
+    pub glue_is_connection_close: bool,
     pub script: Vec<(Trigger, Action)>,
     /// cut the server->client stream at this absolute offset
     pub s2c_cut: Option<(usize, CutKind)>,
@@ -190,6 +192,7 @@ impl Default for BrokerCfg {
             glue_after_open_ok: None,
             raw_eof_with_last_segment: false,
             silent_instead_of_open_ok: false,
+            glue_is_connection_close: false,
             script: Vec::new(),
             s2c_cut: None,
             s2c_corrupt: None,
@@ -583,6 +586,9 @@ impl Broker {
                 self.sent.push(SentRec { stamp, time_ns: now, s2c_start: s, s2c_end: e, kind: k });
             }
             self.push_s2c(&out);
+            if open_ok_out && self.cfg.glue_is_connection_close {
+                self.phase = Phase::ServerClosing;
+            }
             if open_ok_out {
                 if let Some((rest, gap)) = self.glue_rest.take() {
                     self.glue_pending = true;
